@@ -16,7 +16,7 @@ after the observed one (history).  All of these put *other* file names / parsers
 system (the grammar's file name on every class, other models' names and parsers).
 
 Observed: `_tx_position`, `_tx_position_end`, `get_location(obj)` of every object of every
-model, `parser.pos_to_linecol` on a sample of positions, and the Arpeggio parse tree.
+model (on the finished model and, in some cases, also from an object processor while loading), `parser.pos_to_linecol` on a sample of positions, and the Arpeggio parse tree.
 
 Model side (Drivers/Obj.lean): `posToLineCol`, `getLocation` (per-root input and file name),
 `build` (spans assigned by process_node from the dumped real parse tree) and the
@@ -53,6 +53,8 @@ TRIVIAL_LAYOUT = {"lead": None, "trail": None, "seps": []}
 #           named  metamodel_from_str(grammar, file_name=path) (classes carry the grammar's path)
 #           file   metamodel_from_file(path)                   (ditto)
 # "hist": other models loaded with the same meta-model before ("pre") / after ("post") the observed one.
+# "proc": object processors of all object classes call get_location too (its documented use: filling exceptions),
+#         i.e. the location is also observed *during* the load, not only on the finished model.
 MODEL_SRCS = ("str", "named", "file", "rel")
 MM_SRCS = ("str", "named", "file")
 
@@ -85,6 +87,7 @@ def gen_cfg(r, multi=False):
                            "post": [r.choice(kinds) for _ in range(r.weighted([(0, 2), (1, 3), (2, 1)]))]}
     cfg["src"] = src
     cfg["file"] = src in ("file", "rel")
+    cfg["proc"] = r.chance(0.3)  # get_location is also asked from object processors (while the load is still running)
     return cfg
 
 
@@ -207,7 +210,8 @@ class Prop(Check):
             "block comments, glued tokens, non-ASCII names); 'mini' texts over {a,b,space,\\n,\\r}; 'multi': 2-4 files "
             "importing each other (importURI, also cyclic) with cross-file references; each with a random load "
             "configuration: model from string / string with file_name / absolute / relative file, grammar from string / "
-            "string with file_name / file, other models loaded with the same meta-model before and after; "
+            "string with file_name / file, other models loaded with the same meta-model before and after, get_location "
+            "also asked from object processors during the load; "
             "non-trivial = >= 3 objects, text starts with whitespace or a comment, some object starts on a line > 1 at a "
             "column > 1, and some object's slice contains a newline or a comment (multi: >= 2 models and a cross-file "
             "reference)")
@@ -302,19 +306,36 @@ class Prop(Check):
             L.tmp = tempfile.mkdtemp(prefix="verif-obj-")
         return L.tmp
 
-    def make_mm(self, case, L, grammar, **kw):
+    def make_mm(self, case, L, grammar, procs=(), **kw):
         """the meta-model, created the way case['mm_src'] says"""
+        import textx
         from textx import metamodel_from_file, metamodel_from_str
 
         how = case.get("mm_src", "str")
         if how == "str":
-            return metamodel_from_str(grammar, **kw)
-        L.gfile = os.path.join(self.tmpdir(L), "grammar.tx")
-        if how == "named":
-            return metamodel_from_str(grammar, file_name=L.gfile, **kw)
-        with open(L.gfile, "wb") as f:
-            f.write(grammar.encode("utf-8"))
-        return metamodel_from_file(L.gfile, **kw)
+            mm = metamodel_from_str(grammar, **kw)
+        else:
+            L.gfile = os.path.join(self.tmpdir(L), "grammar.tx")
+            if how == "named":
+                mm = metamodel_from_str(grammar, file_name=L.gfile, **kw)
+            else:
+                with open(L.gfile, "wb") as f:
+                    f.write(grammar.encode("utf-8"))
+                mm = metamodel_from_file(L.gfile, **kw)
+        L.ploc = {}
+        if case.get("proc") and procs:
+            def record(obj):
+                if not G.is_txobj(obj):
+                    return obj
+                try:
+                    loc = textx.get_location(obj)
+                    L.ploc[id(obj)] = [loc.get("line"), loc.get("col"), loc.get("nchar"), loc.get("filename")]
+                except Exception as e:
+                    L.ploc[id(obj)] = {"exc": type(e).__name__}
+                return None
+
+            mm.register_obj_processors({name: record for name in procs})
+        return mm
 
     def load_text(self, L, mm, how, raw, fname):
         """(model, absolute file name or None)"""
@@ -347,13 +368,16 @@ class Prop(Check):
             raw = G.expected(gram, case["tree"], case["layout"], translate=False)[0]
             other = G.expected(gram, case["tree"], TRIVIAL_LAYOUT, translate=False)[0]
         L.grammar = grammar
-        L.mm = self.make_mm(case, L, grammar, **kw)
+        procs = ["Model", "W"] if case["kind"] == "mini" else [r["name"] for r in case["gram"]["rules"] if r["kind"] == "common"]
+        L.mm = self.make_mm(case, L, grammar, procs=procs, **kw)
         hist = case.get("hist") or {}
+        L.keep = []  # the other models stay alive (no recycled object ids)
 
         def others(hows):
             for how in hows:
                 m, fn = self.load_text(L, L.mm, how, other, f"other{len(L.others)}.txt")
                 L.others.append(fn)
+                L.keep.append(m)
                 try:  # use the other model's parser the way the observation uses the observed one's
                     textx.get_location(m)
                     for o in textx.get_children(lambda x: True, m)[-1:]:
@@ -385,8 +409,10 @@ class Prop(Check):
         """spans / locations of the objects `real` of one model, its parser's line / column function, its parse tree"""
         import textx
 
-        objs, heap = [], []
+        objs, heap, plocs = [], [], []
         for ro in real:
+            pl = L.ploc.get(id(ro))
+            plocs.append(pl[:3] + [code(pl[3])] if isinstance(pl, list) else pl)
             pos, end = getattr(ro, "_tx_position", None), getattr(ro, "_tx_position_end", None)
             try:
                 loc = textx.get_location(ro)
@@ -414,7 +440,7 @@ class Prop(Check):
                 lcs.append(list(parser.pos_to_linecol(p)))
             except Exception as e:
                 lcs.append({"exc": type(e).__name__})
-        sub = {"input": text, "objs": objs, "heap": heap, "positions": poss, "linecols": lcs}
+        sub = {"input": text, "objs": objs, "heap": heap, "positions": poss, "linecols": lcs, "plocs": plocs}
         one = G.Loaded()
         one.model, one.mm = model, L.mm
         sub.update(G.dump_ptree(one, names))
@@ -438,7 +464,7 @@ class Prop(Check):
         from textx.scoping.providers import PlainNameImportURI
 
         L.grammar = MULTI_GRAMMAR
-        L.mm = self.make_mm(case, L, MULTI_GRAMMAR)
+        L.mm = self.make_mm(case, L, MULTI_GRAMMAR, procs=MULTI_NAMES)
         L.mm.register_scope_providers({"*.*": PlainNameImportURI()})
         root = self.tmpdir(L)
         L.paths = []
@@ -545,16 +571,19 @@ class Prop(Check):
         return None
 
     @staticmethod
-    def cmp_loc(objs, loc, fmap, first=0, label=""):
+    def cmp_loc(objs, plocs, loc, fmap, first=0, label=""):
         if "loc" not in loc:
             return f"model rejected the request: {loc}"
         for i, o in enumerate(objs):
-            want, got = loc["loc"][first + i], o[2]
-            if isinstance(got, dict):
-                return f"{label}get_location(object {i}) raised {got}"
-            g = [got[0], got[1], got[2], fmap(got[3])]
-            if want != g:
-                return f"{label}get_location(object {i}): implementation {g}, model {want}"
+            for got, when in ((o[2], ""), (plocs[i] if i < len(plocs) else None, " in its object processor")):
+                want = loc["loc"][first + i]
+                if got is None and when:
+                    continue
+                if isinstance(got, dict):
+                    return f"{label}get_location(object {i}){when} raised {got}"
+                g = [got[0], got[1], got[2], fmap(got[3])]
+                if want != g:
+                    return f"{label}get_location(object {i}){when}: implementation {g}, model {want}"
         return None
 
     @staticmethod
@@ -594,7 +623,8 @@ class Prop(Check):
             k = 1
             for i, s in enumerate(obs["models"]):
                 label = f"file {i}: "
-                d = self.cmp_loc(s["objs"], outs[0], fmap, first=s["off"], label=label) or self.cmp_linecol(s, outs[k], label)
+                d = (self.cmp_loc(s["objs"], s.get("plocs") or [], outs[0], fmap, first=s["off"], label=label)
+                     or self.cmp_linecol(s, outs[k], label))
                 k += 1
                 if d:
                     return d
@@ -604,7 +634,8 @@ class Prop(Check):
                     if d:
                         return d
             return None
-        d = self.cmp_linecol(obs, outs[0]) or self.cmp_loc(obs["objs"], outs[1], lambda c: 1 if c == "same" else c)
+        d = self.cmp_linecol(obs, outs[0]) or self.cmp_loc(obs["objs"], obs.get("plocs") or [], outs[1],
+                                                           lambda c: 1 if c == "same" else c)
         if d:
             return d
         if len(outs) > 2:
@@ -626,9 +657,14 @@ class Prop(Check):
         return G.expected(case["gram"], case["tree"], case["layout"], translate=translated(case))
 
     @staticmethod
-    def oracle_model(text, exp, objs, want_file, want_name, label=""):
+    def oracle_model(text, exp, objs, want_file, want_name, label="", plocs=()):
         """the statement, for the objects of one model"""
         n = len(text)
+        for o, ploc, (pos, end, loc) in zip(exp, plocs, objs):
+            if ploc is not None and ploc != loc and isinstance(loc, list):
+                # asked while loading (object processor) and asked on the finished model: the same object, the same answer
+                return (f"{label}get_location(object {o['eid']}) was {ploc} in its object processor and is {loc} on the "
+                        f"finished model")
         for o, (pos, end, loc) in zip(exp, objs):
             i = o["eid"]
             if not isinstance(pos, int) or not isinstance(end, int):
@@ -678,7 +714,8 @@ class Prop(Check):
             return "the parser input differs from the text given"
         named = src_of(case) != "str"
         return self.oracle_model(text, exp, obs["objs"], "same" if named else None,
-                                 "the model file" if named else "None (the model was given as a string)")
+                                 "the model file" if named else "None (the model was given as a string)",
+                                 plocs=obs.get("plocs") or ())
 
     def oracle_multi(self, case, obs):
         where = {}
@@ -692,7 +729,8 @@ class Prop(Check):
         for i, ((text, exp), s) in enumerate(zip(exps, obs["models"])):
             if s["input"] != text:
                 return f"file {i}: the parser input differs from the text of the file"
-            f = self.oracle_model(text, exp, s["objs"], f"f{i}", f"file {i} of the case ('f{i}')", label=f"file {i}: ")
+            f = self.oracle_model(text, exp, s["objs"], f"f{i}", f"file {i} of the case ('f{i}')", label=f"file {i}: ",
+                                  plocs=s.get("plocs") or ())
             if f:
                 return f
             want = [[s["off"] + o["eid"], obs["models"][where[ref][0]]["off"] + where[ref][1]]
@@ -739,12 +777,14 @@ class Prop(Check):
             for side in ("pre", "post"):
                 if h.get(side):
                     yield dict(case, hist=dict(h, **{side: h[side][:-1]}))
+        if case.get("proc"):
+            yield dict(case, proc=False)
         if case.get("mm_src", "str") != "str":
             yield dict(case, mm_src="str")
             if case["mm_src"] == "file":
                 yield dict(case, mm_src="named")
         src = src_of(case)
-        simpler = {"rel": ["str", "file"], "file": ["str"], "named": ["str"], "str": []}[src]
+        simpler = {"rel": ["str", "file"], "file": ["str"], "named": ["str", "file"], "str": []}[src]
         for s in simpler:
             if not (case["kind"] == "multi" and s == "str"):
                 yield with_src(case, s)
@@ -828,5 +868,6 @@ class Prop(Check):
                                  "models_in_multi_cases": sum(len(o["models"]) for c, o in ok if c["kind"] == "multi"),
                                  "cases_from_file": sum(1 for c in cases if translated(c)),
                                  "cases_with_history": sum(1 for c in cases if c.get("hist")),
+                                 "locations_seen_by_object_processors": sum(1 for s in subs for p in s.get("plocs") or [] if p),
                                  "load_configurations": cfg,
                                  "cases_with_comments": sum(1 for c in cases if c["kind"] == "gen" and c["gram"].get("comment"))}}
